@@ -609,6 +609,19 @@ func ruleNoHiddenState(c *Ctx, roots []*ssa.Function) {
 							if callee := x.Common().StaticCallee(); callee != nil && inertPkgs[pkgPathOf(callee)] {
 								continue
 							}
+							// a repository function that only reads through the pointer (a method with a pointer receiver on an
+							// element of a rule table) does not modify it
+							if callee := x.Common().StaticCallee(); callee != nil && c.P.OwnedFunc(callee) && len(callee.Blocks) > 0 {
+								idx := -1
+								for i, aa := range x.Common().Args {
+									if aa == a {
+										idx = i
+									}
+								}
+								if idx >= 0 && idx < len(callee.Params) && !writesThrough(c.P, callee.Params[idx], 0) {
+									continue
+								}
+							}
 							modified[g] = "passed by address to a call in " + shortFn(f)
 						}
 					}
@@ -717,6 +730,52 @@ func isGroupCopy(v ssa.Value) bool {
 			continue
 		}
 		if bi, ok := call.Call.Value.(*ssa.Builtin); ok && bi.Name() == "copy" && len(call.Call.Args) == 2 && call.Call.Args[0] == ssa.Value(mk) && isGroupValue(call.Call.Args[1]) {
+			return true
+		}
+	}
+	return false
+}
+
+// writesThrough: the function may store through the pointer v (directly, through a field/element address derived from it,
+// or by handing it on to a function that does). Unknown uses count as writes.
+func writesThrough(p *Program, v ssa.Value, depth int) bool {
+	if depth > 4 {
+		return true
+	}
+	refs := v.Referrers()
+	if refs == nil {
+		return false
+	}
+	for _, r := range *refs {
+		switch x := r.(type) {
+		case *ssa.Store:
+			if x.Addr == v {
+				return true
+			}
+			return true // the pointer itself is stored somewhere
+		case *ssa.FieldAddr, *ssa.IndexAddr:
+			if writesThrough(p, x.(ssa.Value), depth+1) {
+				return true
+			}
+		case *ssa.UnOp, *ssa.DebugRef, *ssa.BinOp:
+		case *ssa.Phi:
+			if writesThrough(p, x, depth+1) {
+				return true
+			}
+		case ssa.CallInstruction:
+			callee := x.Common().StaticCallee()
+			if callee == nil || len(callee.Blocks) == 0 || !p.OwnedFunc(callee) {
+				if callee != nil && inertPkgs[pkgPathOf(callee)] {
+					continue
+				}
+				return true
+			}
+			for i, a := range x.Common().Args {
+				if a == v && i < len(callee.Params) && writesThrough(p, callee.Params[i], depth+1) {
+					return true
+				}
+			}
+		default:
 			return true
 		}
 	}
